@@ -355,7 +355,7 @@ def plan(ctx):
   p1 = enum_programs(1)
   p2 = p1 + enum_programs(2)
   tc = []
-  second = p2 if th else [[['set', 'A']], [['set', None]], [['with', 'B', [], False]], [['with', 'B', [], True]]]
+  second = p2 if th else [[['set', 'A']], [['with', 'B', [], False]], [['with', 'B', [], True]]]
   for a in p2:
     for b in second:
       tc.append({'progs': [a, b], 'mode': 'op', 'bound': -1 if len(a) + len(b) <= 2 and not th else (3 if th else 2)})
@@ -372,5 +372,5 @@ def plan(ctx):
   lc = []
   for progs in (line if th else line[:2]):
     for bound in ((0, 1, 2, 3) if th else (0, 1, 2)):
-      lc.append({'progs': progs, 'mode': 'line', 'bound': bound, 'max_executions': 60000 if th else 3000})
+      lc.append({'progs': progs, 'mode': 'line', 'bound': bound, 'max_executions': 60000 if th else 1500})
   ctx.pmap('threads', lc, chunk=1)
